@@ -288,7 +288,7 @@ def run(ck):
     cases += tl.failure_cases(rng, 12 if thorough else 4, stats, maxlen=5)
     # unusual but legal context values (a lock, a generator, a 0-d array, ...): what the SERs say about the nodes around them
     # must stay true (direct oracle; the harness' own log snapshots by reference and never copies values)
-    cases += tl.unusual_value_cases(13 if thorough else 8)
+    cases += tl.unusual_value_cases(14 if thorough else 9)
     combos = [(d, m) for d in tl.DETAILS for m in tl.MODES]
     texts, kept, reported = [], [], {}
     counts = collections.Counter()
